@@ -318,7 +318,10 @@ def run(ctx):
         check_passthrough(ctx, fi, fi.cls.name if fi.cls else None, stats)
     ctx.extra["passthrough_sites"] = stats
     ctx.call_sites += stats["sub"] + stats["eval"]
-    ctx.floor("C07.R2", 150)
+    # sizes that depend on context expressions are evaluated against the context of the call: nothing is remembered on the object (shared with C17.R1)
+    from . import C17 as _C17
+    _C17.stateless_methods(ctx, "C07.R2", ("_sizeof", "_actualsize"))
+    ctx.floor("C07.R2", 150 + 45)
 
     entry_checks(ctx)
     from . import C17
